@@ -114,9 +114,9 @@ type Decl struct {
 }
 
 type Symbols struct {
-	decls map[string]*Decl
-	sorts map[string]bool
-	n     int
+	decls     map[string]*Decl
+	sorts     map[string]bool
+	n         int
 	datatypes map[string]string
 }
 
